@@ -267,7 +267,12 @@ pub fn judge_c05(h: &History) -> Outcome {
 }
 
 pub fn judge_c06(h: &History) -> Outcome {
-    let verdict = if h.sched.hang { Ok(()) } else { oracle::c06_skip(h) };
+    // "elements delivered before it stay valid": for consuming kinds the ownership ledger is part of the oracle
+    let verdict = if h.sched.hang {
+        Ok(())
+    } else {
+        oracle::c06_skip(h).and_then(|_| if h.case.kind.consuming() && !h.sched.step_bound_hit { oracle::c08_exactly_once_ownership(h) } else { Ok(()) })
+    };
     let skips: Vec<&OpRec> = h.ops.iter().filter(|o| o.tag == Tag::Skip).collect();
     let pulls = timed_pulls(h);
     let concurrent_skip = skips.iter().any(|s| pulls.iter().any(|p| overlaps(s, p)));
@@ -661,6 +666,7 @@ fn cfg_c01(thorough: bool) -> GenCfg {
 
 fn cfg_c03(thorough: bool) -> GenCfg {
     let mut c = cfg_e1(thorough);
+    c.layouts = vec![Layout::Tracked, Layout::Tracked, Layout::Zst];
     c.w_chunk = 8;
     c.w_bufnew = 3;
     c.w_bufnext = 10;
@@ -673,6 +679,7 @@ fn cfg_c03(thorough: bool) -> GenCfg {
 
 fn cfg_c05(thorough: bool) -> GenCfg {
     let mut c = cfg_e1(thorough);
+    c.huge_chunks = true;
     c.max_len = if thorough { 24 } else { 8 };
     c.end_with_drain = true;
     c.extra_after_end = if thorough { 200 } else { 40 };
@@ -684,6 +691,7 @@ fn cfg_c05(thorough: bool) -> GenCfg {
 
 fn cfg_c06(thorough: bool) -> GenCfg {
     let mut c = cfg_e1(thorough);
+    c.huge_chunks = true;
     c.max_len = if thorough { 24 } else { 8 };
     c.w_skip = 3;
     c.w_has = 2;
@@ -722,6 +730,7 @@ fn cfg_c09(thorough: bool, known: bool) -> GenCfg {
 
 fn cfg_c11(thorough: bool, seq: bool) -> GenCfg {
     let mut c = cfg_e1(thorough);
+    c.huge_chunks = true;
     c.w_len = 5;
     c.w_has = 5;
     c.w_skip = 1;
@@ -828,6 +837,7 @@ pub fn check(ctx: &mut Ctx) -> Option<Meta> {
             "E1 histories with skips + E2 single-threaded sequences; oracle: (a) Wing-Gong linearizability search of the timed pulls/skips against the one-cursor model (memoised on per-thread prefixes), (b) per-thread increasing positions, real-time order implies position order, gap-free prefix at quiescence; non-trivial (E1) = >=2 threads with a real-time-ordered pair and a concurrent pair of pulls on different threads; (E2) = >=3 operations of >=2 kinds".into(),
             vec![
                 Plan { name: "sched-linearizable", cfg: { let mut c = cfg_e1(t); c.w_skip = 1; c }, eval: eval_c04, quick: 40_000, thorough_factor: 50 },
+                Plan { name: "sched-linearizable-huge-chunks", cfg: { let mut c = cfg_e1(t); c.w_skip = 1; c.huge_chunks = true; c.w_chunk = 8; c.min_threads = 2; c }, eval: eval_c04, quick: 20_000, thorough_factor: 50 },
                 Plan { name: "seq-cursor", cfg: seq_of({ let mut c = cfg_e1(t); c.w_skip = 1; c.max_threads = 1; c }, t), eval: eval_c04_seq, quick: 200_000, thorough_factor: 30 },
                 Plan { name: "sched-dfs-linearizable", cfg: { let mut c = cfg_small(&e1_kinds()); c.w_skip = 1; c }, eval: eval_c04_dfs, quick: dfsq, thorough_factor: 60 },
             ],
@@ -861,18 +871,20 @@ pub fn check(ctx: &mut Ctx) -> Option<Meta> {
             "E1 part: consuming kinds (Vec, [T;N], owning wrapped iterator) under generated schedules with pulls, partial chunk consumption, buffered pulls and concurrent skip_to_end calls, ending in drop or into_seq_iter; oracle: identity ledger (every element dropped exactly once, never while owned, at most one owner); non-trivial = >=2 threads, >=1 context switch and an undelivered part, skip or unconsumed chunk part".into(),
             vec![
                 Plan { name: "sched-ledger", cfg: { let mut c = GenCfg::base(crate::props::CONSUMING); c.max_len = if t { 16 } else { 8 }; c.min_threads = 2; c.max_threads = 4; c.max_ops = 4; c.w_skip = 3; c.terminal_mode = 2; c.sched_len = if t { 300 } else { 120 }; c }, eval: eval_c08, quick: 40_000, thorough_factor: 50 },
+                Plan { name: "sched-ledger-after-panic", cfg: { let mut c = GenCfg::base(crate::props::CONSUMING); c.max_len = if t { 16 } else { 8 }; c.min_threads = 1; c.max_threads = 3; c.max_ops = 3; c.w_skip = 1; c.w_drain_composite = 3; c.end_with_drain = true; c.end_drain_composite = true; c.fault_sites = vec![FaultSite::Closure, FaultSite::Closure, FaultSite::ProbeNext]; c.terminal_mode = 2; c.sched_len = 120; c }, eval: eval_c08, quick: 20_000, thorough_factor: 50 },
                 Plan { name: "sched-dfs-ledger", cfg: { let mut c = cfg_small(crate::props::CONSUMING); c.w_skip = 4; c.terminal_mode = 2; c }, eval: eval_c08_dfs, quick: dfsq, thorough_factor: 60 },
             ],
         ),
         "C13" => (
             "E1 part: every adaptor kind and its underlying iterator run the same generated multi-threaded program under the same generated *coarse* schedule (threads switch only before the first shared action of an operation, inside the wrapped probe, at closures and when the running thread waits; clones are not yield points), so the interleaving does not depend on the number of atomic accesses per operation; oracle: thread by thread identical results (indices, chunk boundaries, lengths, end / skip behaviour, elements), remainder, source intact; non-trivial = >=2 threads, >=1 context switch and a chunk pull or skip".into(),
             vec![
-                Plan { name: "sched-lockstep", cfg: { let mut c = GenCfg::base(crate::props::ADAPTORS); c.kinds.extend_from_slice(&[Kind::ClonedIterRef, Kind::CopiedIterRef, Kind::ClonedIterRef, Kind::CopiedIterRef]); c.max_len = if t { 16 } else { 8 }; c.min_threads = 2; c.max_threads = 4; c.max_ops = 4; c.w_skip = 3; c.w_len = 1; c.w_has = 1; c.terminal_mode = 2; c.sched_len = if t { 300 } else { 160 }; c }, eval: eval_c13, quick: 30_000, thorough_factor: 50 },
+                Plan { name: "sched-lockstep", cfg: { let mut c = GenCfg::base(crate::props::ADAPTORS); c.kinds.extend_from_slice(&[Kind::ClonedIterRef, Kind::CopiedIterRef, Kind::ClonedIterRef, Kind::CopiedIterRef]); c.max_len = if t { 16 } else { 8 }; c.min_threads = 2; c.max_threads = 4; c.max_ops = 4; c.w_skip = 3; c.w_len = 1; c.w_has = 1; c.terminal_mode = 2; c.pre_pulls = true; c.sched_len = if t { 300 } else { 160 }; c }, eval: eval_c13, quick: 30_000, thorough_factor: 50 },
             ],
         ),
         "C10" => (
             "E1 part: all kinds used concurrently under generated schedules (incl. skips), joined, then into_seq_iter; same remainder oracle as the sequential part; non-trivial = >=2 threads, >=1 context switch, >=1 delivery before the conversion".into(),
             vec![
+                Plan { name: "sched-into_seq-huge-chunks", cfg: { let mut c = cfg_e1(t); c.w_skip = 1; c.terminal_mode = 1; c.min_threads = 2; c.huge_chunks = true; c.w_chunk = 8; c }, eval: eval_c10, quick: 15_000, thorough_factor: 50 },
                 Plan { name: "sched-into_seq", cfg: { let mut c = cfg_e1(t); c.w_skip = 1; c.terminal_mode = 1; c.min_threads = 2; c }, eval: eval_c10, quick: 30_000, thorough_factor: 50 },
             ],
         ),
